@@ -678,6 +678,9 @@ type c34ClientCase struct {
 	mutate   func(rg *rand.Rand, m []byte) []byte
 	seed     int
 	post     func(rg *rand.Rand) []byte // hostile encrypted post-handshake handshake bytes (may be nil)
+	// keyUpdates > 0: after the handshake the client sends that many valid KeyUpdate records
+	keyUpdates       int
+	keyUpdateRequest bool
 	echReal  bool                       // client uses the server's real ECH config
 }
 
@@ -804,6 +807,16 @@ func c34RunClient(cs c34ClientCase, ch *wire.ClientHello) c34Result {
 		}
 		if cs.post != nil {
 			tls.VerifWriteRecord(u.Conn, 22, cs.post(rg))
+			res.mutated = true
+		}
+		if cs.keyUpdates > 0 {
+			// a run of well-formed KeyUpdates, each in its own record under the properly ratcheted
+			// key (requesting an update of the peer's key or not)
+			for k := 0; k < cs.keyUpdates; k++ {
+				if err := tls.VerifSendKeyUpdate(u.Conn, cs.keyUpdateRequest); err != nil {
+					break
+				}
+			}
 			res.mutated = true
 		}
 		u.Write([]byte("ping"))
@@ -1056,6 +1069,11 @@ func TestC34(t *testing.T) {
 			// post-handshake hostile messages
 			for k := 0; k < 3; k++ {
 				all = append(all, planned{sl, c34ClientCase{tg: sl.p.tg, sv: sl.sv, msgIndex: -1, mutName: "post_handshake", seed: k, post: postHandshakeHostile, echReal: sl.ech}, 0})
+			}
+			if sl.tls13 {
+				for k, n := range []int{1, 31, 32, 33, 40, 200} {
+					all = append(all, planned{sl, c34ClientCase{tg: sl.p.tg, sv: sl.sv, msgIndex: -1, mutName: fmt.Sprintf("keyupdate_run_%d", n), seed: k, keyUpdates: n, keyUpdateRequest: k%3 != 2, echReal: sl.ech}, 0})
+				}
 			}
 		}
 		r.Count("real_client_cases_available", int64(len(all)))
